@@ -28,13 +28,13 @@ RULE = ('seeded generator: a catalogue of ~45 public operations (plane construct
         'descriptors; non-trivial = operation with at least one array/object argument.')
 ASSUMPTIONS = ['repeated calls are compared to 1e-12 relative rather than bit-for-bit (BLAS kernels may depend on buffer alignment)',
                'aliasing of a result with an operand is an observation, not a violation (the property speaks of mutation)',
-               'in-place whitelist: fit_tilt(inplace=True), Wavefront.insert(out), field.insert(out), dft2/idft2(out=), '
+               'in-place whitelist (the documented target only - fit_tilt(inplace=True) edits the Plane, not the array it was built from): Wavefront.insert(out), field.insert(out), dft2/idft2(out=), '
                'propagate_fft(scratch=), Spectrum.crop/trim/pad/append/resample/to']
 PLAN = {'quick': {'gen': 8}, 'thorough': {'gen': 16, 'tests': 1}}
 REQUIRED_BUCKETS = ['op:Plane()', 'op:Pupil(mask3d)', 'op:multiply', 'op:propagate_dft', 'op:propagate_fft', 'op:fit_tilt',
                     'op:rescale', 'op:adc', 'op:collect_charge', 'op:collect_charge_bayer', 'op:tilt-multiply', 'op:Field(ndarray offset)', 'op:Plane.properties', 'op:pixel', 'op:jitter', 'op:smear',
                     'op:dft2', 'op:idft2', 'op:zernike_fit', 'op:pad', 'op:rebin', 'op:power_spectrum', 'op:Spectrum.multiply',
-                    'op:Spectrum.sample', 'op:Spectrum.bin', 'op:Spectrum.to', 'op:refusals', 'op:fit_tilt:nothing-to-fit', 'op:shot_noise', 'op:read_noise', 'program', 'dft-keys>32',
+                    'op:Spectrum.sample', 'op:Spectrum.bin', 'op:Spectrum.to', 'op:refusals', 'op:fit_tilt:nothing-to-fit', 'op:fit_tilt:inplace', 'op:shot_noise', 'op:read_noise', 'program', 'dft-keys>32',
                     'replayed']
 REQUIRED_ANCHORS = ['anchor:_dft2_coords', 'anchor:Plane.__init__', 'anchor:adc', 'anchor:Plane.fit_tilt', 'anchor:Field.__mul__']
 REQUIRED_ORACLES = ['frozen-inputs', 'inputs-unchanged', 'history-deterministic', 'global-rng-untouched', 'global-state-untouched', 'dft-cache-intact',
@@ -283,6 +283,23 @@ def catalogue(lentil, rng):
             return q, [('plane', fp, probe.fingerprint(p))]
         return a, call
 
+    @op('fit_tilt:inplace')
+    def _():
+        # "in place" means on the Plane: the caller's OPD map (which another plane may share) keeps its values, for monolithic and
+        # segmented planes alike, and a second plane built from the same map still carries the tilt
+        shape, a = pupil_args()
+        mono = bool(rng.random() < 0.6)
+        if mono:
+            a['mask'] = np.sum(a['mask'], axis=0)
+        rr = (np.arange(shape[0]) - shape[0] // 2)[:, None] * 1e-3 + np.zeros(shape)
+        a['opd'] = a['opd'] + 2e-6 * rr
+        def call(a):
+            p1, p2 = mk_pupil(a), mk_pupil(a)
+            p1.fit_tilt(inplace=True)
+            w2 = lentil.Wavefront(6e-7) * p2
+            return (p1, w2)
+        return a, call
+
     @op('rescale')
     def _():
         shape, a = pupil_args()
@@ -425,7 +442,7 @@ def catalogue(lentil, rng):
             fp0 = probe.fingerprint(p)
             q = p.fit_tilt()
             same_obj = 0.0 if q is not p else 1.0
-            q.opd = np.array(a['new_opd'])        # (fit_tilt(inplace=True) is documented to edit the plane's own OPD array)
+            q.opd = a['new_opd']
             q.fit_tilt(inplace=True)
             q.amplitude = np.asarray(q.amplitude) * 0.5
             w = lentil.Wavefront(6e-7) * p if which < 2 else p.multiply(lentil.Wavefront(6e-7))
